@@ -277,6 +277,15 @@ pub fn c06(thorough: bool, replay: Option<String>) -> i32 {
     });
     rep.add_sub("one-operator", "every opcode 1..255 except softfork, plus both secp opcodes, x every argument list of length 0..3 over {nil, 1, -1, 0x00, 32 bytes, (2 . 3)} (quoted), integer / converted / hex spellings", n, true, capped, st);
 
+    // (ii') well-formed nested expressions (depth <= 2)
+    let es = ExprSpace::new();
+    let envs2 = vec![T::list(&[T::int(11), T::int(12), T::int(13)]), T::p(T::p(T::int(21), T::int(22)), T::p(T::nil(), T::int(24)))];
+    let ne2 = envs2.len() as u64;
+    let stride = if thorough { 1 } else { 3 };
+    let n = es.total / stride * ne2;
+    let (st, capped) = par_range(n, 1024, cap, || (), |_, st, i| compare_c06(st, &es.get((i / ne2) * stride), &envs2[(i % ne2) as usize], Spell::Convert, true, "expr"));
+    rep.add_sub("expressions", &format!("well-formed expressions of nesting depth <= 2 over f r l c + = i a, paths and constants ({} in total; {}) x 2 environments", es.total, if stride == 1 { "all".to_string() } else { format!("every {}rd by index, a fixed sub-enumeration", stride) }), n, stride == 1, capped, st);
+
     // (iii) spellings of the core programs
     let leaves3 = if thorough { 4 } else { 3 };
     let sp3 = TreeSpace::new(ops_core(), leaves3);
@@ -550,6 +559,56 @@ pub fn c04(thorough: bool, replay: Option<String>) -> i32 {
         check_c04(st, ctx, &r, &[], OptEntry::OptimizeSexp, "apply-quoted");
     });
     rep.add_sub("apply-quoted", "(a (q . S) ARGS) for every tree S with 1..3 (thorough 4) leaves over the core alphabet x 9 ARGS forms (paths, conses of paths/constants, quoted list, (r 1))", n, true, capped, st);
+
+    // (i-ops) every named operator of the latest table, with constant and with path arguments, in evaluated positions
+    {
+        let table = chialisp::classic::clvm::keyword_to_atom(chialisp::classic::clvm::OPERATORS_LATEST_VERSION);
+        let mut ops: Vec<(String, Vec<u8>)> = table.iter().map(|(n, a)| (n.clone(), a.clone())).collect();
+        ops.sort();
+        let mut rs: Vec<(T, T)> = vec![];
+        for (name, opcode) in &ops {
+            if ["q", "a", "x", "softfork"].contains(&name.as_str()) {
+                continue;
+            }
+            if let Some(args) = crate::optab::op_args(name) {
+                let consts: Vec<T> = args.iter().map(|a| quote(a.clone())).collect();
+                let paths: Vec<T> = [2u8, 5, 11].iter().take(args.len()).map(|p| T::a(&[*p])).collect();
+                let mut c_items = vec![T::A(opcode.clone())];
+                c_items.extend(consts.clone());
+                let r_const = T::list(&c_items);
+                let mut p_items = vec![T::A(opcode.clone())];
+                p_items.extend(paths.clone());
+                let r_path = T::list(&p_items);
+                let env = T::list(&args);
+                rs.push((r_const.clone(), env.clone()));
+                rs.push((T::list(&[T::a(&[4]), r_const.clone(), T::a(&[1])]), env.clone()));
+                rs.push((T::list(&[T::a(&[3]), r_const.clone(), quote(T::int(1)), quote(T::int(2))]), env.clone()));
+                rs.push((r_path.clone(), env.clone()));
+                let inner = T::list(&[T::a(&[4]), r_path.clone(), T::a(&[7])]);
+                let mut new_env = T::a(&[1]);
+                for a in args.iter().rev() {
+                    new_env = T::list(&[T::a(&[4]), quote(a.clone()), new_env]);
+                }
+                rs.push((T::list(&[T::a(&[2]), quote(inner), new_env]), env.clone()));
+                rs.push((T::list(&[T::a(&[4]), T::list(&[T::a(&[4]), r_const, T::nil()]), quote(T::int(5))]), env));
+            }
+        }
+        let n = rs.len() as u64;
+        let (st, capped) = par_range(n, 4, cap, || Ctx::new(&[]), |ctx, st, i| {
+            let (r, e) = &rs[i as usize];
+            check_c04(st, ctx, r, std::slice::from_ref(e), OptEntry::OptimizeSexp, "operators");
+            check_c04(st, ctx, r, std::slice::from_ref(e), OptEntry::RunOptimizerFixed, "operators");
+        });
+        rep.add_sub("operators", &format!("every value-returning operator of the latest keyword table ({} names) with valid constant arguments and with path arguments, alone, under c / i, nested, and re-rooted through (a (q . X) ENV); optimize_sexp and run_optimizer", ops.len()), n, true, capped, st);
+    }
+
+    // (i'') well-formed nested expressions
+    let es = ExprSpace::new();
+    let envs_e = vec![T::list(&[T::int(11), T::int(12), T::int(13)]), T::p(T::p(T::int(21), T::int(22)), T::p(T::nil(), T::int(24))), T::list(&[T::list(&[T::int(1), T::int(2)]), T::list(&[T::int(3)])])];
+    let stride = if thorough { 1 } else { 7 };
+    let n = es.total / stride;
+    let (st, capped) = par_range(n, 256, cap, || Ctx::new(&envs_e), |ctx, st, i| check_c04(st, ctx, &es.get(i * stride), &[], OptEntry::OptimizeSexp, "expr"));
+    rep.add_sub("expressions", &format!("well-formed expressions of nesting depth <= 2 ({} in total; {}), each in 3 environments", es.total, if stride == 1 { "all".to_string() } else { format!("every {}th by index, a fixed sub-enumeration", stride) }), n, stride == 1, capped, st);
 
     // (ii) path family
     let mut paths: Vec<Vec<u8>> = vec![];
